@@ -1072,8 +1072,11 @@ class DestHandler:
             self.transmission_mode == TransmissionMode.UNACKNOWLEDGED
             and not self._checksum_verify()
         ):
+            # The checksum verification has already declared the fault. It is not declared again.
             if (
-                self._declare_fault(ConditionCode.FILE_CHECKSUM_FAILURE)
+                self.cfg.default_fault_handlers.get_fault_handler(
+                    ConditionCode.FILE_CHECKSUM_FAILURE
+                )
                 != FaultHandlerCode.IGNORE_ERROR
             ):
                 return False
